@@ -388,12 +388,19 @@ impl FeoxStore {
             sector += sectors_needed as u64;
         }
 
+        // Superseded generations are retired before the expired winners that
+        // shadow them. The repair is journaled in chunks; with both kinds in one
+        // list a crash after a chunk holding an expired winner but before the
+        // chunk holding its older generation would let that older generation win
+        // the next recovery.
+        let mut expired_extents = Vec::new();
         if let Some(now) = recovery_time {
-            self.remove_expired_recovery_winners(now, format, &mut retired_extents)?;
+            self.remove_expired_recovery_winners(now, format, &mut expired_extents)?;
         }
 
         if !self.read_only {
             disk.retire_extents(&retired_extents)?;
+            disk.retire_extents(&expired_extents)?;
         }
 
         if last_end < total_sectors {
